@@ -109,7 +109,10 @@ Inductive op :=
 | OStateless (g : list (list val) -> list (list val))
 | OAcc (a : accop)
 | ODelta
-| OZip (pl pr : pers).
+| OZip (pl pr : pers)
+| ONoReplay (p : pers) (init : list val) (ins : list val -> val -> list val).
+    (* fold_no_replay / reduce_no_replay: the accumulator like fold / reduce, but the value is emitted
+       only in ticks with new input -- and in tick 0 (`context.current_tick().0 == 0`) *)
 
 Record ostate := { st_ports : list (list val) }.
 
@@ -121,6 +124,7 @@ Definition op_init (o : op) : ostate :=
   | OAcc a => {| st_ports := map (ao_init a) (seq 0 (nports a)) |}
   | ODelta => {| st_ports := [[]] |}
   | OZip _ _ => {| st_ports := [[]; []] |}
+  | ONoReplay _ init _ => {| st_ports := [init; []] |}     (* second port: [] until a tick has ended *)
   end.
 
 Definition absorb (a : accop) (st ins : list (list val)) : list (list val) :=
@@ -161,6 +165,13 @@ Definition op_step (o : op) (s : ostate) (ins : list (list val)) : ostate * list
       let rq := port 1 (st_ports s) ++ port 1 ins in
       let n := Nat.min (length lq) (length rq) in
       ({| st_ports := [skipn n lq; skipn n rq] |}, [vzip (firstn n lq) (firstn n rq)])
+  | ONoReplay _ _ ins1 =>
+      let acc := fold_left ins1 (port 0 ins) (port 0 (st_ports s)) in
+      let emit := match port 0 ins, port 1 (st_ports s) with
+                  | [], _ :: _ => false          (* no new input and not tick 0 *)
+                  | _, _ => true
+                  end in
+      ({| st_ports := [acc; port 1 (st_ports s)] |}, [if emit then acc else []])
   end.
 
 Definition op_end (o : op) (s : ostate) : ostate :=
@@ -175,6 +186,8 @@ Definition op_end (o : op) (s : ostate) : ostate :=
   | OZip pl pr =>
       {| st_ports := [match pl with Tick => [] | Static => port 0 (st_ports s) end;
                       match pr with Tick => [] | Static => port 1 (st_ports s) end] |}
+  | ONoReplay p init _ =>
+      {| st_ports := [match p with Tick => init | Static => port 0 (st_ports s) end; [VN 1]] |}
   end.
 
 (* run an operator over a history of per-tick inputs; one output vector per tick *)
@@ -244,11 +257,17 @@ Definition op_fold (p : pers) (init : val) (f : val -> val -> val) : op :=
   OAcc (acc1 p [init] (fold_ins f) (fun new _ _ => new)).
 (* fold_no_replay additionally needs the tick number: modelled in the tick layer only *)
 
+Definition op_fold_no_replay (p : pers) (init : val) (f : val -> val -> val) : op :=
+  ONoReplay p [init] (fold_ins f).
+
 (* reduce: accumulator is [] (None) or [acc] *)
 Definition reduce_ins (f : val -> val -> val) (s : list val) (x : val) : list val :=
   match s with a :: _ => [f a x] | [] => [x] end.
 Definition op_reduce (p : pers) (f : val -> val -> val) : op :=
   OAcc (acc1 p [] (reduce_ins f) (fun new _ _ => new)).
+
+Definition op_reduce_no_replay (p : pers) (f : val -> val -> val) : op :=
+  ONoReplay p [] (reduce_ins f).
 
 Definition fold_keyed_ins (init : val) (f : val -> val -> val) (t : list val) (kv : val) : list val :=
   tbl_update (vfst kv) (fun o => match o with Some a => f a (vsnd kv) | None => f init (vsnd kv) end) t.
@@ -326,6 +345,14 @@ Definition diff_filter (neg pos : list val) : list val :=
   filter (fun x => negb (vmem x neg)) pos.
 Definition op_difference (ppos pneg : pers) : op :=
   OAcc (acc2 pneg ppos set_ins vec_push (fun neg pos _ _ => diff_filter neg pos)).
+
+(* cross_singleton: port 0 = input (streamed), port 1 = single; the state keeps the first item of
+   `single` ('static: for ever, 'tick: for the tick); without one the tick emits nothing *)
+Definition keep_first (s : list val) (x : val) : list val := match s with [] => [x] | _ => s end.
+Definition cross_single (inp single : list val) : list val :=
+  match single with s :: _ => map (fun x => VP x s) inp | [] => [] end.
+Definition op_cross_singleton (p : pers) : op :=
+  OAcc (acc2 Tick p vec_push keep_first (fun inp single _ _ => cross_single inp single)).
 
 Definition op_multiset_delta : op := ODelta.
 Definition op_zip (pl pr : pers) : op := OZip pl pr.
